@@ -132,6 +132,11 @@ fn check_parsed(text: &str, value: &Value, map: &CodeMap) -> Result<(), String> 
     if map.len() != n {
         return Err(format!("code map has {} entries, traversal {n} fragments", map.len()));
     }
+    // traverse() through the protocol (on small documents)
+    if n <= 9 {
+        let want: Vec<(usize, (FK, usize))> = value.traverse().map(|(i, f)| (i, addr(&f))).collect();
+        bridge::iterator_protocol("traverse()", || value.traverse().map(|(i, f)| (i, addr(&f))), &want)?;
+    }
     // sub_fragments(): the direct children of fragment i are the fragments i+1, then each
     // following sibling one volume further, up to the end of i's own volume - forwards,
     // backwards, and alternating from both ends
@@ -188,6 +193,27 @@ fn check_parsed(text: &str, value: &Value, map: &CodeMap) -> Result<(), String> 
                 if count != a.len() {
                     return Err(format!("array at {i}: iter_mapped yields {count} of {} items", a.len()));
                 }
+                // the mapped iterator through the whole Iterator protocol (offsets are summed
+                // incrementally: skipping must sum the same volumes as stepping)
+                if a.len() > 6 {
+                    // a long array: spot positions instead of the full protocol
+                    let want: Vec<usize> = a.iter_mapped(map, i).map(|m| m.offset).collect();
+                    let len = a.len();
+                    for k in [1, len / 2, len - 1, len] {
+                        if a.iter_mapped(map, i).nth(k).map(|m| m.offset) != want.get(k).copied() {
+                            return Err(format!("array at {i}: iter_mapped().nth({k}) disagrees with stepping"));
+                        }
+                    }
+                    let st = len / 3 + 1;
+                    if a.iter_mapped(map, i).step_by(st).map(|m| m.offset).collect::<Vec<_>>() != want.iter().step_by(st).copied().collect::<Vec<_>>() {
+                        return Err(format!("array at {i}: iter_mapped().step_by({st}) disagrees with stepping"));
+                    }
+                }
+                if a.len() <= 6 && n <= 9 {
+                    let want: Vec<usize> = a.iter_mapped(map, i).map(|m| m.offset).collect();
+                    bridge::iterator_protocol(&format!("array at {i}: iter_mapped offsets"), || a.iter_mapped(map, i).map(|m| m.offset), &want)?;
+                    bridge::iterator_protocol(&format!("array at {i}: iter_mapped"), || a.iter_mapped(map, i), &a.iter_mapped(map, i).collect::<Vec<_>>())?;
+                }
                 // the slice impl
                 let sl: &[Value] = a.as_slice();
                 let offs: Vec<usize> = sl.iter_mapped(map, i).map(|m| m.offset).collect();
@@ -238,6 +264,11 @@ fn check_parsed(text: &str, value: &Value, map: &CodeMap) -> Result<(), String> 
                         o.get_mapped_entries_with_index(map, i, k).map(|(j, m)| (j, (m.offset, m.value.key.offset, m.value.value.offset))).collect();
                     if got != want_e {
                         return fail("get_mapped_entries_with_index", format!("{got:?}"));
+                    }
+                    if pos.len() <= 5 && n <= 9 {
+                        bridge::iterator_protocol(&format!("object at {i}: get_mapped({k:?})"), || o.get_mapped(map, i, k), &o.get_mapped(map, i, k).collect::<Vec<_>>())?;
+                        bridge::iterator_protocol(&format!("object at {i}: get_mapped_entries({k:?})"), || o.get_mapped_entries(map, i, k).map(|m| m.offset), &o.get_mapped_entries(map, i, k).map(|m| m.offset).collect::<Vec<_>>())?;
+                        bridge::iterator_protocol(&format!("object at {i}: get_mapped_with_index({k:?})"), || o.get_mapped_with_index(map, i, k).map(|(j, m)| (j, m.offset)), &o.get_mapped_with_index(map, i, k).map(|(j, m)| (j, m.offset)).collect::<Vec<_>>())?;
                     }
                     let got: Vec<usize> = o.get_mapped(map, i, k).map(|m| m.offset).collect();
                     if got != want_e.iter().map(|x| x.1 .2).collect::<Vec<_>>() {
